@@ -74,6 +74,9 @@ def run(check: Check) -> None:
     # the transducers above read whitespace-separated tokens: the formula and its postfix form are split at any whitespace (X8)
     tokenisers(check, only=("Function.infix_to_postfix", "Function.parse"))
     w3_variables(check)
+    from .c06 import x1_format_infix_semantics
+
+    x1_format_infix_semantics(check)  # the formula's operators become tokens of their own whatever the operands are called
     check.exhaustive_parts += ["operator table vs specification ladder", "pop rule over all orderings", "arity x depth enumeration"]
 
 
